@@ -165,6 +165,92 @@ def forChildren (tbl : Table) (k : Kind) (typ : String) (stanza : List Tok) (con
       | some p => calls ++ [{ pat := some p, view := stanza.take (cons.headD 0) }]
     else calls
 
+/-! ### `bufReader.Token` call by call, over a reader with either end-of-input framing
+
+`encoding/xml` lets a `TokenReader` return its last token together with `io.EOF` or report
+`io.EOF` on a separate call; `bufReader` must buffer the token in both cases. -/
+
+/-- how the reader underneath the multiplexer reports the end of its input -/
+inductive Framing
+  | sep   -- `io.EOF` on a separate call after the last token
+  | eof   -- the last token is returned together with `io.EOF`
+  deriving DecidableEq, Repr
+
+/-- one `Token` call on the underlying reader: the token (if any), whether a non-nil error
+comes with it, and the input left -/
+def srcToken (f : Framing) : List Tok → Option Tok × Bool × List Tok
+  | [] => (none, true, [])
+  | t :: ts => (some t, ts.isEmpty && f == .eof, ts)
+
+/-- a `bufReader`: `buf`, `offset`, and what the underlying reader `r` still holds -/
+structure BufR where
+  buf : List Tok
+  offset : Nat
+  rest : List Tok
+  deriving Repr
+
+/-- `bufReader.Token`: replay from the buffer while `offset < len(buf)`, otherwise read the
+underlying reader and retain the token whenever one is returned, with or without an error -/
+def BufR.token (f : Framing) (r : BufR) : Option Tok × Bool × BufR :=
+  match r.buf[r.offset]? with
+  | some t => (some t, false, { r with offset := r.offset + 1 })
+  | none =>
+    match srcToken f r.rest with
+    | (some t, e, rest') => (some t, e, { buf := r.buf ++ [t], offset := r.offset + 1, rest := rest' })
+    | (none, e, rest') => (none, e, { r with rest := rest' })
+
+/-- a handler that calls `Token` up to `c` times and stops at the first error; it keeps every
+token it was given -/
+def BufR.readN (f : Framing) : Nat → BufR → List Tok × BufR
+  | 0, r => ([], r)
+  | c + 1, r =>
+    match r.token f with
+    | (some t, false, r') => let (ts, r'') := BufR.readN f c r'; (t :: ts, r'')
+    | (some t, true, r') => ([t], r')
+    | (none, _, r') => ([], r')
+
+/-- `BR.handlerRead` computed call by call: a fresh `bufReader{r: t, buf: b.buf}` (offset 0)
+read `c` times over a reader of framing `f`; the buffer is handed back afterwards -/
+def BR.stepRead (f : Framing) (b : BR) (c : Nat) : List Tok × BR :=
+  let (ts, r) := BufR.readN f c { buf := b.buf, offset := 0, rest := b.rest }
+  (ts, { buf := r.buf, rest := r.rest })
+
+/-- `dispatchChildren` with the handlers' reads computed by `read` -/
+def dispatchChildrenG (read : BR → Nat → List Tok × BR) (tbl : Table) (k : Kind) (typ : String) :
+    List (Nat × Name) → List Nat → BR → List Call × BR
+  | [], _, b => ([], b)
+  | (pos, n) :: cs, cons, b =>
+    let b1 := b.advance (pos + 1)
+    match lookup tbl k typ n with
+    | none =>
+      let (calls, b3) := dispatchChildrenG read tbl k typ cs cons b1
+      ({ pat := none, view := [] } :: calls, b3)
+    | some p =>
+      let (view, b2) := read b1 (cons.headD 0)
+      let (calls, b3) := dispatchChildrenG read tbl k typ cs cons.tail b2
+      ({ pat := some p, view := view } :: calls, b3)
+
+/-- `forChildren` over a reader of framing `f`, every handler read computed call by call -/
+def forChildrenF (f : Framing) (tbl : Table) (k : Kind) (typ : String) (stanza : List Tok) (cons : List Nat) : List Call :=
+  match stanza with
+  | [] => []
+  | start :: body =>
+    let cs := children stanza
+    let (calls, b) := dispatchChildrenG (BR.stepRead f) tbl k typ cs cons { buf := [start], rest := body }
+    -- `len(r.buf) == 2` after the iterator has been drained (`defer iterator.Close()` runs
+    -- later, the iterator's loop has read everything)
+    let b' := b.advance stanza.length
+    if b'.buf.length == 2 then
+      match lookup tbl k typ ⟨"", ""⟩ with
+      | none => calls ++ [{ pat := none, view := [] }]
+      | some p => calls ++ [{ pat := some p, view := (BR.stepRead f b' (cons.headD 0)).1 }]
+    else calls
+
+/-- handler errors are collected, the loop goes on: the ordinals (among the registered
+handlers that ran) of the calls that failed, as reported by the returned `multiErr` -/
+def failedCalls (calls : List Call) (errs : List Nat) : List Nat :=
+  (List.range (calls.filter fun c => c.pat.isSome).length).filter fun i => errs.contains i
+
 /-! ### histories on one multiplexer
 
 Options are exported functions and may be applied to a `ServeMux` after `New`; lookups and
